@@ -1,5 +1,5 @@
 (* C08  Trading-day lifecycle and clocks: each phase once, in order, settled once. *)
-From RQ Require Import Model.Num Model.Calendar Model.EventLoop Model.Phases Proofs.CalendarFacts Proofs.EventLoopFacts Proofs.PhasesFacts Gen.ApiPhases.
+From RQ Require Import Model.Num Model.Calendar Model.EventLoop Model.Phases Proofs.CalendarFacts Proofs.EventLoopFacts Proofs.PhasesFacts Gen.ApiPhases Gen.Listeners.
 From Coq Require Import List String.
 Open Scope Z_scope.
 
@@ -42,6 +42,18 @@ Theorem C08_handlers_cannot_order_when_closed :
                                closed_phase_events) (order_apis ++ flow_apis) = true.
 Proof. exact handlers_cannot_order_when_closed. Qed.
 
+(* an event published on the bus reaches every system listener unless one of them returns a truthy value (EventBus.publish_event); no
+   system listener of an event a back-test publishes can return a value (regenerated inventory of every add_listener / prepend_listener call, Gen/Listeners.v),
+   and the listeners the lifecycle relies on - the strategy's callbacks, the broker's and the accounts' phase handlers - are registered *)
+Theorem C08_event_reaches_every_listener : forall (E : Type) (ls : list (E -> bool)) (e : E),
+  (forall l, In l ls -> l e = false) -> delivered ls e = List.length ls.
+Proof. exact @delivered_to_all. Qed.
+Theorem C08_no_listener_swallows_events :
+  forallb (fun r => negb (snd r) || in_strs (snd (fst (fst r))) external_events) system_listeners = true /\
+  forallb (fun le => existsb (fun r => String.eqb (fst (fst (fst r))) (fst le) && String.eqb (snd (fst (fst r))) (snd le)) system_listeners)
+          expected_phase_listeners = true.
+Proof. split; [exact no_listener_returns_a_value|exact phase_listeners_present]. Qed.
+
 Example C08_example :
   exec_run (daily_events [20200102; 20200103]) 20200103 =
   [PBeforeTrading 20200102 0; POpenAuction 20200102 0; PBar 20200102 900; PAfterTrading 20200102 930; PSettlement 20200102;
@@ -59,3 +71,5 @@ Print Assumptions C08_brackets.
 Print Assumptions C08_order_phases.
 Print Assumptions C08_handler_phases.
 Print Assumptions C08_handlers_cannot_order_when_closed.
+Print Assumptions C08_event_reaches_every_listener.
+Print Assumptions C08_no_listener_swallows_events.
